@@ -13,11 +13,11 @@ def run(ctx):
     ctx.assumptions += [
         "SHA-256 is a parameter H of the theorems (they hold for every H); the driver uses a Lean SHA-256 whose "
         "agreement with crypto/sha256 is what the correspondence observes",
-        "uint32 sizes are modelled as Nat: theorems and correspondence are for trees below 2^31 leaves",
+        "uint32 sizes are modelled as Nat; theorem uint32_range proves that below 2^31 leaves every size, store position and the store length stay below 2^32 (no uint32 operation of the generators wraps); correspondence covers bit helpers up to 2^31-1",
         "the hash file is modelled as an append-only list of hashes with positional reads (process-crash model, no torn writes)",
         "mintree_h (never read) and the rootHash cache (reset on every mutation) are not modelled",
     ]
-    ctx.cov["trusted_base"] += ["harness hmerkle/mtree + drv_merkle (correspondence check)", "Lean compiler for the driver",
+    ctx.cov["trusted_base"] += ["harness hmerkle/mtree + drv_merkle (correspondence check; the driver's array-backed store is proved to refine the model's list-backed store)", "Lean compiler for the driver",
                                 "build-tag hooks merkle/verif_hooks.go (exported wrappers only)"]
     ctx.lean_props()
     hbin = ctx.build_harness("hmerkle")
